@@ -6,5 +6,6 @@
 size_t verif_gk;                                                       /* ghost index (P-GIDX) */
 int verif_rb_fail; unsigned verif_rb_calls; const void *verif_rb_buf; size_t verif_rb_len;   /* entropy gateway record */
 uint64_t verif_k_drawn[4]; unsigned verif_rand_calls; int verif_rand_fail;                      /* nonce source record */
+unsigned verif_x_bc_calls; int verif_x_bc_last_ca; int verif_x_bc_last_ret; int verif_x_unknown_critical;   /* x509 extension checks */
 #endif
 #endif
